@@ -95,6 +95,8 @@ def wellformed_obj(s):
         v = np.asarray(s.value)
     except Exception as e:  # pragma: no cover
         return False, 'attributes unreadable: %r' % (e,)
+    if w.dtype.kind not in 'fiub' or v.dtype.kind not in 'fiub':
+        return False, 'wave / value are not real numbers (dtype %s / %s)' % (w.dtype, v.dtype)
     if w.ndim != 1 or v.ndim != 1:
         return False, 'wave ndim %d value ndim %d' % (w.ndim, v.ndim)
     if w.shape != v.shape:
